@@ -178,6 +178,11 @@ func (sess *hopSession) handleAgc(tube *tubes.Reliable) {
 	// Check server config (coarse grained enable/disable)
 	if !sess.server.config.EnableAuthgrants { // AuthGrants not enabled
 		authgrants.WriteIntentDenied(tube, authgrants.TargetDenial)
+	} else if sess.usingAuthGrant {
+		// A session admitted through authorization grants may only do what
+		// those grants name, and no grant covers issuing further grants:
+		// otherwise any delegate could mint itself a shell grant here
+		authgrants.WriteIntentDenied(tube, authgrants.TargetDenial)
 	} else {
 		logrus.Info("target: starting target instance")
 		cert := sess.transportConn.FetchClientLeaf()
